@@ -143,12 +143,7 @@ def mk(case):
 
 def gen_spec(rng, quals):
     t = rng.random()
-    if t < 0.06:
-        # the one method with a per-call keyword argument
-        sim = [q for q in quals if q.endswith(".SIMUS")]
-        if sim:
-            return {"kind": "class", "qual": sim[0]}
-    if t < 0.03:
+    if rng.random() < 0.04:
         # a threshold filter that may let nothing through, followed by a function filter whose function looks at the
         # criterion as a whole (and cannot be evaluated on an empty one), then a decision maker
         f1 = T.config(rng, "FilterGT")
@@ -158,6 +153,11 @@ def gen_spec(rng, quals):
         f2["conditions"] = [["C0", "near_best"]]
         f2["ignore_missing"] = True
         return {"kind": "pipe", "steps": [f1, f2], "dmaker": {"name": rng.choice(["ratio", "refpoint"])}}
+    if t < 0.06:
+        # the one method with a per-call keyword argument
+        sim = [q for q in quals if q.endswith(".SIMUS")]
+        if sim:
+            return {"kind": "class", "qual": sim[0]}
     if t < 0.10:
         # the objective inverters (their output depends on nothing but the matrix, zeros included)
         return {"kind": "tf", "cfg": T.config(rng, rng.choice(["InvertMinimize", "NegateMinimize"]))}
